@@ -92,13 +92,15 @@ gate.{s2} = 0.5
 gate.{s3} = 0.75
 memb.w_dup = 0.3
 gate.w_dup = -0.6
+memb.K_clamp = 140
 
 [engine]
 time = 0 bind time
 
 [memb]
-dot({s1}) = -{inter} + gate.{s2} * {p2} - {s1} * 0.5
+dot({s1}) = -{inter} + gate.{s2} * {p2} - {s1} * 0.5 + 0.001 * K_clamp
     in [nM]
+dot(K_clamp) = 0
 {inter} = {mmt_expr(e_inter).replace(s2, 'gate.' + s2).replace(s3, 'gate.' + s3).replace(p1, 'gate.' + p1)}
 {p2} = 2.5
     in [pS/nF]
@@ -254,8 +256,13 @@ def back_to_myokit(rep, ode, label, src_model=None, text=None):
         return
     with np.errstate(all="ignore"):
         rv = np.array(ns["rhs"](0.0, st0, pr0), dtype=float)
+        rv_j = np.array(ns["rhs"](0.0, st0 * (1 + 1e-13), pr0), dtype=float)     # conditioning probe (sin of 1e67 is noise)
     for v, want in zip(mm.states(), md):
         got = float(rv[ns["state_index"](v.name())])
+        got_j = float(rv_j[ns["state_index"](v.name())])
+        if not (abs(got_j - got) <= 1e-9 * (1 + abs(got))):
+            rep.count("back_conversion_ill_conditioned_state_skipped")
+            continue
         if not (math.isclose(got, want, rel_tol=1e-8, abs_tol=1e-12) or (got != got and want != want)):
             rep.violation(f"{label}: converted back to Myokit, d{v.name()}/dt evaluates to {want!r}; the gotranx rhs gives {got!r}", {"kind": "direct", "label": label, "text": text})
             return
@@ -344,7 +351,7 @@ def main(argv=None):
     return rep.finish(
         level="proof",
         rule="the shipped example.mmt and noble_1962.cellml (ToRORd in the thorough tier); generated .mmt models with two components, aliases, "
-             "variables nested under two different states with the same local names, same-named states in two components with same-named nested variables, names that clash with sympy names (beta, gamma, E, I, S, N, ...), "
+             "variables nested under two different states with the same local names, same-named states in two components with same-named nested variables, a clamped state (derivative a literal 0), names that clash with sympy names (beta, gamma, E, I, S, N, ...), "
              "if(...), dot(x) read inside expressions and all operators; .ode-text models (whose intermediates may read state derivatives) converted to Myokit; derivatives compared at the initial state and 2 perturbed states",
         trusted_base=["Coq 8.16.1 kernel (the renaming model is partial)", "Myokit's parser, evaluator (evaluate_derivatives), unit system and sympy writer are oracles"],
         assumptions=["relative tolerance 1e-8 between Myokit's evaluation and the generated numpy rhs"],
